@@ -329,7 +329,10 @@ func FilterPMTPacketsToPids(packets []*packet.Packet, pids []int) ([]*packet.Pac
 	pmtPayload := pmtByteBuffer.Bytes()
 
 	// Determine if any of the given PIDs aren't in the PMT.
-	unfilteredPMT, _ := NewPMT(pmtPayload)
+	unfilteredPMT, err := NewPMT(pmtPayload)
+	if err != nil {
+		return nil, err
+	}
 
 	pmtPid := packet.Pid(packets[0])
 	var missingPids []int
@@ -352,7 +355,11 @@ func FilterPMTPacketsToPids(packets []*packet.Packet, pids []int) ([]*packet.Pac
 	}
 
 	// include +1 to account for the PointerField field itself
-	pointerField := PointerField(pmtPayload) + 1
+	pointerField := int(PointerField(pmtPayload)) + 1
+	// the section at the pointer field is taken to be the PMT: its fixed part must be there
+	if len(pmtPayload) < pointerField+programInfoLengthOffset+2 {
+		return nil, gots.ErrPMTParse
+	}
 
 	var filteredPMT bytes.Buffer
 
@@ -367,13 +374,22 @@ func FilterPMTPacketsToPids(packets []*packet.Packet, pids []int) ([]*packet.Pac
 
 	// Get program info length
 	programInfoLength := uint16(pmtPayload[programInfoLengthOffset]&0x0f)<<8 | uint16(pmtPayload[programInfoLengthOffset+1])
+	if len(pmtPayload) < int(programInfoLengthOffset+2+programInfoLength) {
+		return nil, gots.ErrPMTParse
+	}
 	if programInfoLength != 0 {
 		filteredPMT.Write(pmtPayload[programInfoLengthOffset+2 : programInfoLengthOffset+2+programInfoLength])
 	}
 
 	for offset := programInfoLengthOffset + 2 + programInfoLength; offset < PSIHeaderLen+sectionLength-pmtEsDescriptorStaticLen-CrcLen; {
+		if len(pmtPayload) < int(offset+pmtEsDescriptorStaticLen) {
+			return nil, gots.ErrPMTParse
+		}
 		elementaryPid := int(pmtPayload[offset+1]&0x1f)<<8 | int(pmtPayload[offset+2])
 		infoLength := uint16(pmtPayload[offset+3]&0x0f)<<8 | uint16(pmtPayload[offset+4])
+		if len(pmtPayload) < int(offset+pmtEsDescriptorStaticLen+infoLength) {
+			return nil, gots.ErrPMTParse
+		}
 
 		// This is an ES PID we want to keep
 		if pidIn(pids, elementaryPid) {
@@ -389,7 +405,7 @@ func FilterPMTPacketsToPids(packets []*packet.Packet, pids []int) ([]*packet.Pac
 	// This will be the length of our buffer - (Bytes preceding section_length) + CRC
 	// Bytes preceding = 4 + PointerField value and the CRC = 4, so it turns out to be the length of the buffer - PointerField field
 	// -1 because we previously added 1 for the pointerfield field itself
-	newSectionLength := uint16(len(fPMT)) - uint16(pointerField-1)
+	newSectionLength := uint16(len(fPMT) - (pointerField - 1))
 	sectionLengthBytes := make([]byte, 2)
 	binary.BigEndian.PutUint16(sectionLengthBytes, newSectionLength)
 	fPMT[pointerField+1] = (fPMT[pointerField+1] & 0xf0) | sectionLengthBytes[0]
